@@ -56,7 +56,13 @@ def gen_country(rng, key, role, n, allow_portfolio, grid=True):
     if firm['form'] == 'fixed' and rng.random() < 0.35:
         cap = {'ai': par(0.4, 0.8), 'af': par(0.1, 0.4)}
         firm['margin'] = rng.choice([0.1, 0.125, 0.2, 0.25])
-    return {'key': key, 'role': role, 'hh': hh, 'cap': cap, 'firm': firm, 'G': path(rng, n, 10, 30)}
+    custom = None
+    if rng.random() < 0.3:
+        # a pair of user-defined sectors whose CONSTRUCTORS book a cash flow (a grant) between them
+        custom = {'grant': rng.choice(['2.0', '1.5', '0.75']), 'inc_donor': rng.random() < 0.5,
+                  'inc_recipient': rng.random() < 0.5}
+    return {'key': key, 'role': role, 'hh': hh, 'cap': cap, 'firm': firm, 'G': path(rng, n, 10, 30),
+            'custom': custom}
 
 
 def gen_zone(rng, cur, kind, keys, n, ext, grid=True):
@@ -234,6 +240,22 @@ def _build(spec, model=None, holder=None, order_seed=None, codes=None, ckey_map=
             ExternalSector(mod)
     S = b.sectors
     wiring = []
+    from sfc_models.sector import Sector as _Sector
+
+    class Donor(_Sector):
+        """User-defined sector: books its outflow in the constructor."""
+
+        def __init__(self, country, code, amount, is_income):
+            _Sector.__init__(self, country, code, 'Donor', has_F=True)
+            self.AddVariable('GRANT', 'Grant paid', amount)
+            self.AddCashFlow('-GRANT', is_income=is_income)
+
+    class Recipient(_Sector):
+        """User-defined sector: books the matching inflow in the constructor (name requested before main())."""
+
+        def __init__(self, country, code, donor, is_income):
+            _Sector.__init__(self, country, code, 'Recipient', has_F=True)
+            self.AddCashFlow('+' + donor.GetVariableName('GRANT'), is_income=is_income)
     for z in spec['zones']:
         g = z['gov']
         central_key = [c['key'] for c in z['countries'] if c['role'] in ('single', 'central')][0]
@@ -284,6 +306,12 @@ def _build(spec, model=None, holder=None, order_seed=None, codes=None, ckey_map=
                     (ck, 'LAB'), Market(country, code(ck, 'LAB'), 'Labour market'))))
                 steps.append(('GOOD', [], lambda country=country, ck=ck: S.__setitem__(
                     (ck, 'GOOD'), Market(country, code(ck, 'GOOD'), 'Goods market'))))
+                if c.get('custom'):
+                    cu = c['custom']
+                    steps.append(('DONOR', [], lambda country=country, ck=ck, cu=cu: S.__setitem__(
+                        (ck, 'DONOR'), Donor(country, 'DONOR', cu['grant'], cu['inc_donor']))))
+                    steps.append(('RECIP', ['DONOR'], lambda country=country, ck=ck, cu=cu: S.__setitem__(
+                        (ck, 'RECIP'), Recipient(country, 'RECIP', S[(ck, 'DONOR')], cu['inc_recipient']))))
                 f = c['firm']
                 if f['form'] == 'fixed':
                     steps.append(('BUS', [], lambda country=country, ck=ck, f=f: S.__setitem__(
@@ -434,7 +462,8 @@ def shape_of(spec):
     for z in spec['zones']:
         f = z['gov']['form'][:4] + ('+m' if z['gov']['money'] else '') + ('+d' if z['gov']['deposits'] else '')
         regs = [c for c in z['countries'] if c['role'] != 'central']
-        firms = ''.join(sorted(set(c['firm']['form'][0] + ('c' if c.get('cap') else '') for c in regs)))
+        firms = ''.join(sorted(set(c['firm']['form'][0] + ('c' if c.get('cap') else '') + ('u' if c.get('custom') else '')
+                                   for c in regs)))
         port = ''.join(sorted(set((c['hh']['portfolio'] or '-')[0] for c in regs)))
         parts.append('%s:%s:%s:%s' % ('fed' if z['kind'] == 'federation' else 'one', f, firms, port))
     return '|'.join(parts) + ('|ext' if spec['ext'] else '') + ('|g%d' % len(spec['gifts'])) + \
